@@ -122,7 +122,7 @@ def cases(tier, seed):
     pool = [c for c in F.cases("thorough", seed) if c["n_days"] == 365]
     want = ["both", "heating", "weekend", "noisy", "outliers"] if tier == "quick" else sorted({c["name"] for c in pool})
     for c in pool:
-        if c["name"] in want and (tier == "thorough" or (c["family"], c["profile"]) in (("daily", "current"), ("billing", "current")) and c["name"] in ("both", "heating", "noisy")
+        if c["name"] in want and (tier == "thorough" or (c["family"], c["profile"]) in (("daily", "current"), ("billing", "current")) and c["name"] in ("both", "heating", "noisy", "outliers")
                                   or (c["family"], c["profile"], c["name"]) == ("daily", "legacy", "weekend")):
             out.append(dict(c))
     # a daily meter whose usage is unrelated to the weather: CVRMSE above the threshold
